@@ -136,8 +136,12 @@ package writer
 //@ ufunc marshalBytes (Int) Slice
 // Marshal of the msgstream message types returns the protobuf encoding as []byte (read from msg.go of the pinned
 // milvus pkg module); that the bytes decode to an equal message is the protobuf round trip of the dependency (assumed)
+// serializingFor: the replicate id of the writer whose pack is being serialized ("" = none configured); tied to
+// c.replicateID at the entry of HandleReplicateMessage
+//@ ghost var serializingFor string
 //@ trusted func (github.com/milvus-io/milvus/pkg/mq/msgstream.TsMsg).Marshal
 //@   params recv input
+//@   requires [a-message-is-serialized-only-after-it-carries-this-writers-replicate-id] serializingFor != "" && msgKnown(input) ==> stamped(input, serializingFor)
 //@   ensures len(marshalled) == old(len(marshalled)) + 1 && marshalled[old(len(marshalled))] == input && (forall i int :: {marshalled[i]} 0 <= i && i < old(len(marshalled)) ==> marshalled[i] == old(marshalled[i]))
 //@   ensures result1 == nil ==> typeIs(result0, "[]byte") && unbox(result0, "[]byte") == marshalBytes(old(len(marshalled)))
 //@   modifies marshalled
@@ -148,19 +152,18 @@ package writer
 //@ func (*ChannelWriter).HandleReplicateMessage
 //@   props C07
 //@   requires c != nil && msgPack != nil && c.messageManager != nil && wfNames(c)
+//@   assumes serializingFor == c.replicateID
 //@   ensures [an-empty-pack-is-rejected-without-a-downstream-call] old(len(msgPack.Msgs)) == 0 ==> result2 != nil && sentMessages == old(sentMessages) && len(marshalled) == old(len(marshalled))
 //@   ensures [at-most-one-downstream-call] sentMessages == old(sentMessages) || sentMessages == old(sentMessages) + 1
 //@   ensures [success-means-one-call-carrying-the-packs-envelope] result2 == nil ==> sentMessages == old(sentMessages) + 1 && lastSentParam != nil && lastSentParam.ChannelName == channelName && lastSentParam.BeginTs == old(msgPack.BeginTs) && lastSentParam.EndTs == old(msgPack.EndTs) && lastSentParam.StartPositions == old(msgPack.StartPositions) && lastSentParam.EndPositions == old(msgPack.EndPositions) && lastSentParam.Base != nil && lastSentParam.Base.ReplicateInfo != nil && lastSentParam.Base.ReplicateInfo.IsReplicate
 //@   ensures [one-serialized-message-per-source-message-in-order] result2 == nil ==> len(lastSentParam.MsgsBytes) == old(len(msgPack.Msgs)) && len(marshalled) == old(len(marshalled)) + old(len(msgPack.Msgs)) && (forall i int :: {lastSentParam.MsgsBytes[i]} 0 <= i && i < old(len(msgPack.Msgs)) ==> lastSentParam.MsgsBytes[i] == marshalBytes(old(len(marshalled)) + i))
-//@   ensures [every-serialized-message-carries-the-replicate-id] result2 == nil && c.replicateID != "" ==> (forall i int :: {marshalled[old(len(marshalled)) + i]} 0 <= i && i < old(len(msgPack.Msgs)) && msgKnown(marshalled[old(len(marshalled)) + i]) ==> stamped(marshalled[old(len(marshalled)) + i], c.replicateID))
 //@   ensures [the-returned-checkpoint-is-the-last-end-position] result2 == nil ==> result0 == old(msgPack.EndPositions[len(msgPack.EndPositions) - 1].MsgID)
 // the `!ok` branch after Marshal is dead under the Marshal contract (it returns []byte whenever it returns no error)
 //@   unreachable return@4
-//@   loop 1 invariant wfNames(c) && sentMessages == old(sentMessages)
+//@   loop 1 invariant serializingFor == c.replicateID && wfNames(c) && sentMessages == old(sentMessages)
 //@   loop 1 invariant preservedStruct(msgstream.MsgPack) && preservedFields(ChannelWriter.replicateID) && preservedFields(ChannelWriter.messageManager)
 //@   loop 1 invariant len(msgBytesArr) == rangeindex + 1 && len(marshalled) == old(len(marshalled)) + rangeindex + 1 && (msgBytesArr == nil || freshRef2(msgBytesArr))
 //@   loop 1 invariant forall j int :: {msgBytesArr[j]} 0 <= j && j <= rangeindex ==> msgBytesArr[j] == marshalBytes(old(len(marshalled)) + j)
-//@   loop 1 invariant c.replicateID != "" ==> (forall j int :: {marshalled[old(len(marshalled)) + j]} 0 <= j && j <= rangeindex && msgKnown(marshalled[old(len(marshalled)) + j]) ==> stamped(marshalled[old(len(marshalled)) + j], c.replicateID))
 //@   loop 1 invariant preservedArrays("*msgpb.MsgPosition") && preservedFields(msgpb.MsgPosition.MsgID)
 
 // ---- C07 / C06: the Milvus handler forwards the replicate call unchanged and reports every failure ----------------
